@@ -352,7 +352,28 @@ impl Evaluator {
             BinaryOperator::DoubleSlash => self.evaluate_math(expression, |a, b| (a / b).floor()),
             BinaryOperator::Caret => self.evaluate_math(expression, |a, b| a.powf(b)),
             BinaryOperator::Percent => {
-                self.evaluate_math(expression, |a, b| a - b * (a / b).floor())
+                // Lua 5.1 computes `a - math.floor(a / b) * b` when Luau and Lua 5.3 use the
+                // remainder of the division (`fmod`) adjusted to the sign of the divisor: the
+                // result is only known when both definitions agree
+                let floor_modulo = self.evaluate_math(expression, |a, b| a - b * (a / b).floor());
+                let remainder_modulo = self.evaluate_math(expression, |a, b| {
+                    let remainder = a % b;
+                    if remainder != 0.0 && ((remainder < 0.0) != (b < 0.0)) {
+                        remainder + b
+                    } else {
+                        remainder
+                    }
+                });
+
+                match (floor_modulo, remainder_modulo) {
+                    (LuaValue::Number(first), LuaValue::Number(second))
+                        if first.to_bits() == second.to_bits()
+                            || (first.is_nan() && second.is_nan()) =>
+                    {
+                        LuaValue::Number(first)
+                    }
+                    _ => LuaValue::Unknown,
+                }
             }
             BinaryOperator::Concat => {
                 match (
